@@ -226,6 +226,14 @@ pub fn minimise(
                 progress = true;
             }
         }
+        if !sh.expired() && best.consume_nth > 0 {
+            let mut c = best.clone();
+            c.consume_nth = 0;
+            if let Some(r) = sh.fails_some_schedule(&c, attempts / 2) {
+                best = r;
+                progress = true;
+            }
+        }
         if !sh.expired() && best.heap_bytes > 0 {
             let mut c = best.clone();
             c.heap_bytes = 0;
